@@ -14,6 +14,12 @@ var k = koanf.New(".")
 
 // updatePackageInfoFromArgs overrides the fields in packageInfo using command-line arguments
 func updatePackageInfoFromArgs(packageInfo *packaging.PackageInfo, configArgs map[string]string) error {
+	if len(configArgs) == 0 {
+		// Nothing to override. Do not copy the package (and every package it imports,
+		// once per import path) into the configuration store and back.
+		return nil
+	}
+
 	if err := k.Load(structs.Provider(packageInfo, "yaml"), nil); err != nil {
 		log.Panic().Msgf("error loading package info: %v", err)
 	}
